@@ -60,7 +60,11 @@ pub fn small_schedule(rng: &mut Rng, len: usize) -> (Policy, Ctor) {
         3 => Policy::SplitAt(rng.usize(len + 1)),
         _ => Policy::Fixed(64),
     };
-    let ctor = Ctor::Chunk(*rng.pick(&[1usize, 2, 3, 7, 8, 9, 16, 17, 64]));
+    let ctor = if rng.chance(1, 4) {
+        drive::random_ctor(rng)
+    } else {
+        Ctor::Chunk(*rng.pick(&[1usize, 2, 3, 7, 8, 9, 16, 17, 64]))
+    };
     (policy, ctor)
 }
 
